@@ -87,4 +87,145 @@ Proof.
     rewrite (IH _ _ E). unfold Lines.next_line. cbn. rewrite (step_line_line _ _ _ E2). reflexivity.
 Qed.
 
+(* ------------------------------------------------------------------------------------------------------------ *)
+(* where an error raised while one line is visited gets its location *)
+
+Notation pending := (pending T V W).
+Notation world := (world T V W).
+
+Inductive cls (s : st) (e : eloc) : Prop :=
+| cls_here : e = ELoc None (Some (line_no s)) -> cls s e                                   (* raised by the visited statement *)
+| cls_queued : forall a cf n, pending s = Some (a, cf, n) ->
+               e = ELoc None (Some n) -> cls s e                                           (* raised by constructing the queued attribute *)
+| cls_dep : forall d w0 w1 e0, read_dep d w0 = (w1, Some e0) -> e = inject_line e0 (line_no s) -> cls s e.  (* came out of a nested read *)
+
+Lemma flush_err : forall (s : st) e w, flush s = Err e w ->
+  header T V W s = false /\ exists a cf n, pending s = Some (a, cf, n) /\ commit_fails T V a cf (cur T V W s) = true /\ e = ELoc None (Some n) /\ w = world s.
+Proof.
+  intros [c h p cl cu d ln w0] e w. unfold Lines.flush. cbn.
+  destruct h; [discriminate|].
+  destruct p as [[[a cf] k]|]; [|discriminate].
+  destruct (commit_fails T V a cf cu) eqn:E; [|discriminate].
+  unfold raise_at. cbn. intros H. inversion H. split; [reflexivity|]. exists a, cf, k. auto.
+Qed.
+
+Lemma flush_pending : forall s s1 : st, flush s = Ok s1 -> pending s1 = pending s \/ pending s1 = None.
+Proof.
+  intros [c h p cl cu d ln w] s1. unfold Lines.flush. cbn.
+  destruct h.
+  - intros E; inversion E; left; reflexivity.
+  - destruct p as [[[a cf] k]|]; [destruct (commit_fails T V a cf cu)|]; intros E; inversion E; right; reflexivity.
+Qed.
+
+(* a later state of the same line: same counter; the queued attribute is the same or gone *)
+Definition later (s s2 : st) : Prop := line_no s2 = line_no s /\ (pending s2 = None \/ pending s2 = pending s).
+
+Lemma later_refl : forall s, later s s.
+Proof. intros s. split; auto. Qed.
+
+Lemma later_trans : forall s s2 s3, later s s2 -> later s2 s3 -> later s s3.
+Proof.
+  intros s s2 s3 [L1 P1] [L2 P2]. split; [congruence|].
+  destruct P2 as [P2|P2]; [left; exact P2|]. destruct P1 as [P1|P1]; [left|right]; congruence.
+Qed.
+
+Lemma cls_later : forall s s2 e, later s s2 -> cls s2 e -> cls s e.
+Proof.
+  intros s s2 e [L P] C. destruct C as [H|a cf n H He|d w0 w1 e0 H He].
+  - apply cls_here. congruence.
+  - destruct P as [P|P]; [congruence|]. apply (cls_queued s e a cf n); [congruence|exact He].
+  - eapply cls_dep; eauto. congruence.
+Qed.
+
+Lemma flush_later : forall s s1 : st, flush s = Ok s1 -> later s s1.
+Proof. intros s s1 E. split; [eapply flush_line; eauto|]. destruct (flush_pending _ _ E); auto. Qed.
+
+Lemma flush_cls : forall (s : st) e w, flush s = Err e w -> cls s e.
+Proof. intros s e w E. destruct (flush_err _ _ _ E) as (_ & a & cf & n & P & _ & He & _). eapply cls_queued; eauto. Qed.
+
+Lemma step_pre_later : forall p (s s1 : st), step_pre p s = Ok s1 -> later s s1.
+Proof.
+  intros p s s1. destruct p; cbn.
+  - apply flush_later.
+  - intros E; inversion E. split; auto.
+  - discriminate.
+  - destruct (read_dep d (world s)) as [w [e|]]; [discriminate|]. intros E; inversion E. split; auto.
+Qed.
+
+Lemma step_pre_cls : forall p (s : st) e w, step_pre p s = Err e w -> cls s e.
+Proof.
+  intros p s e w. destruct p; cbn.
+  - apply flush_cls.
+  - discriminate.
+  - unfold raise_here, raise_at. intros E; inversion E. apply cls_here. reflexivity.
+  - destruct (read_dep d (world s)) as [w1 [e0|]] eqn:R; [|discriminate]. intros E; inversion E. eapply cls_dep; eauto.
+Qed.
+
+Lemma run_pre_later : forall ps (s s1 : st), run_pre ps s = Ok s1 -> later s s1.
+Proof.
+  induction ps as [|p ps IH]; intros s s1; cbn.
+  - intros E; inversion E. apply later_refl.
+  - destruct (step_pre p s) eqn:E1; [|discriminate]. cbn. intros E.
+    eapply later_trans; [eapply step_pre_later; eauto|eapply IH; eauto].
+Qed.
+
+Lemma run_pre_cls : forall ps (s : st) e w, run_pre ps s = Err e w -> cls s e.
+Proof.
+  induction ps as [|p ps IH]; intros s e w; cbn.
+  - discriminate.
+  - destruct (step_pre p s) as [s1|e1 w1] eqn:E1; cbn.
+    + intros E. eapply cls_later; [eapply step_pre_later; eauto|eapply IH; eauto].
+    + intros E; inversion E; subst. eapply step_pre_cls; eauto.
+Qed.
+
+Lemma do_dir_cls : forall k g sh (s : st) e w, do_dir k g sh s = Err e w -> e = ELoc None (Some (line_no s)).
+Proof.
+  intros k g sh s e w. unfold Lines.do_dir, raise_here, raise_at.
+  destruct k.
+  - discriminate.
+  - destruct g as [|[|]| |]; intros E; inversion E; reflexivity.
+  - destruct (c_mode T V (cur T V W s)); [|destruct g]; intros E; inversion E; reflexivity.
+  - destruct (c_mode T V (cur T V W s)); [|destruct g]; intros E; inversion E; reflexivity.
+  - destruct g; try (intros E; inversion E; reflexivity). destruct (_ || _); intros E; inversion E; reflexivity.
+  - destruct g; try (intros E; inversion E; reflexivity). destruct (_ || _); intros E; inversion E; reflexivity.
+  - intros E; inversion E; reflexivity.
+Qed.
+
+Lemma do_act_cls : forall x (s : st) e w, do_act x s = Err e w -> cls s e.
+Proof.
+  intros x s e w. unfold Lines.do_act. destruct (flush s) as [f|e1 w1] eqn:Ef; cbn.
+  - pose proof (flush_later _ _ Ef) as L. intros E. eapply cls_later; [exact L|]. apply cls_here.
+    destruct x.
+    + destruct (c_mode T V (cur T V W f)) as [[|z]|]; unfold raise_here, raise_at in E; inversion E; reflexivity.
+    + eapply do_dir_cls; eauto.
+    + cbn in E. destruct (closed T V W f); unfold raise_here, raise_at in E; inversion E; reflexivity.
+  - intros E; inversion E; subst. eapply flush_cls; eauto.
+Qed.
+
+Lemma do_act_later : forall x (s s1 : st), do_act x s = Ok s1 -> line_no s1 = line_no s.
+Proof. exact do_act_line. Qed.
+
+Lemma do_stmt_cls : forall x (s : st) e w, do_stmt x s = Err e w -> cls s e.
+Proof.
+  intros x s e w. unfold Lines.do_stmt. destruct (run_pre (s_pre T V D x) s) as [s2|e1 w1] eqn:E2; cbn.
+  - intros E. eapply cls_later; [eapply run_pre_later; eauto|eapply do_act_cls; eauto].
+  - intros E; inversion E; subst. eapply run_pre_cls; eauto.
+Qed.
+
+(* C17, one line: an error that leaves step_line carries the line of this statement, or the line remembered with the
+   queued attribute whose construction failed, or it came out of a nested read (then it already has the other file's path) *)
+Theorem step_line_cls : forall l (s : st) e w, step_line l s = Err e w -> cls s e.
+Proof.
+  intros l s e w. unfold Lines.step_line, is_empty_text.
+  destruct (l_stmt T V D l) as [x|].
+  - destruct (do_stmt x s) as [s3|e1 w1] eqn:E3; cbn.
+    + discriminate.
+    + intros E; inversion E; subst. eapply do_stmt_cls; eauto.
+  - cbn. assert (L : later s (add_comment T V D W l s)).
+    { unfold add_comment. destruct (l_comment T V D l); split; auto. }
+    destruct (l_comment T V D l); [discriminate|].
+    destruct (negb (l_blanks T V D l)); [|discriminate]. intros E.
+    eapply cls_later; [exact L|eapply flush_cls; eauto].
+Qed.
+
 End LineProofs.
